@@ -11,7 +11,7 @@ cp -r /repo/include /repo/examples /repo/tests /repo/CMakeLists.txt /repo/readme
 ( cd "$D" && patch -p1 -s < "$PATCH" ) || { echo "patch failed"; exit 2; }
 cd /verif
 for id in $(echo "$IDS" | tr , ' '); do
-  VERIF_REPO="$D" VERIF_CACHE=${MUT_CACHE:-/var/tmp/mutant-cache} ./check "$id" "$TIER" > "$D/out.txt" 2>&1
+  VERIF_REPO="$D" VERIF_EVIDENCE="$D/_evidence" VERIF_REPLAYS="$D/_replays" VERIF_CACHE=${MUT_CACHE:-/var/tmp/mutant-cache} ./check "$id" "$TIER" > "$D/out.txt" 2>&1
   rc=$?
   echo "== $id $TIER rc=$rc  $(grep -c '^VIOLATION' "$D/out.txt") violation lines"
   grep -E "^(VIOLATION|  key:|INCONCLUSIVE|HELD|KNOWN)" "$D/out.txt" | head -${MUT_LINES:-8} | cut -c1-300
